@@ -646,7 +646,7 @@ impl World {
             }
 
             index += 1;
-            if index == limits.max_iterations {
+            if index >= limits.max_iterations {
                 break Err(Execution::RunLimit(
                     crate::error::RunLimit::TooManyIterations,
                 ));
